@@ -443,9 +443,10 @@ J_iv_arith(e) ==
 J_time_add(e) ==
   LET t == e.pre[1].w
       d0 == D3Of(0, e.a.h, e.a.mi, e.a.s, e.a.us)
-      back == e.a.entry \in {"subtract", "minus_td"}
+      back == e.a.entry \in {"subtract", "minus_td", "minus_dur"}
       d == IF back THEN D3Neg(d0) ELSE d0
-      viaTd == e.a.entry \in {"plus_td", "minus_td", "radd_td"}
+      \* a pendulum Duration is a timedelta too (its `days` slot is the native, floor-normalised one)
+      viaTd == e.a.entry \in {"plus_td", "minus_td", "radd_td", "plus_dur", "minus_dur", "radd_dur"}
       hasDays == d0[1] # 0
       x == TimeAdd(t, d)
   IN IF viaTd /\ hasDays /\ D3Abs(d0)[1] = 0
